@@ -157,11 +157,13 @@ struct Interp {
       case 3: { if (live) StrVectorAppend(P.st[s], (char *)str.c_str()); sh.s.push_back(str); sh.known.push_back(1); break; }
       case 4: { int v = (int)(d * 7 - 100); if (live) StrVectorAppendInt(P.st[s], v); sh.s.push_back(std::to_string(v)); sh.known.push_back(1); break; }
       case 5: { double v = payload(d, 5); if (live) StrVectorAppendDouble(P.st[s], v); sh.s.push_back(fmt("%f", v)); sh.known.push_back(1); break; }
-      case 6: { if (sh.s.empty()) break; size_t idx = (size_t)c % sh.s.size(); if (live) setStr(P.st[s], idx, (char *)str.c_str()); sh.s[idx] = str; sh.known[idx] = 1; break; }
+      case 6: { if (d % 8 == 1 && !g_skip_abort_ops) { fl.oor_access = true; if (live) { expect_abort(true); setStr(P.st[s], sh.s.size() + (size_t)(c % 2), (char *)str.c_str()); expect_abort(false); bad("out-of-range setStr returned"); } break; }
+                if (sh.s.empty()) break; size_t idx = (size_t)c % sh.s.size(); if (live) setStr(P.st[s], idx, (char *)str.c_str()); sh.s[idx] = str; sh.known[idx] = 1; break; }
       case 7: { // extend; the result replaces a pool slot (the old object is deleted), the sources stay alive: a shallow copy shows as a double free / use after free
                 int s3 = (int)(c % Pools::NV); SS e = sh; e.s.insert(e.s.end(), P.sst[s2].s.begin(), P.sst[s2].s.end()); e.known.insert(e.known.end(), P.sst[s2].known.begin(), P.sst[s2].known.end());
                 if (live) { strvector *x = StrVectorExtend(P.st[s], P.st[s2]); DelStrVector(&P.st[s3]); P.st[s3] = x; } P.sst[s3] = e; deleted_something = true; break; }
-      case 8: { if (sh.s.empty()) break; size_t idx = (size_t)c % sh.s.size(); if (live && sh.known[idx] && sh.s[idx] != std::string(getStr(P.st[s], idx))) bad("getStr"); break; }
+      case 8: { if (d % 8 == 2 && !g_skip_abort_ops) { fl.oor_access = true; if (live) { expect_abort(true); (void)getStr(P.st[s], sh.s.size() + (size_t)(c % 2)); expect_abort(false); bad("out-of-range getStr returned"); } break; }
+                if (sh.s.empty()) break; size_t idx = (size_t)c % sh.s.size(); if (live && sh.known[idx] && sh.s[idx] != std::string(getStr(P.st[s], idx))) bad("getStr"); break; }
     }
     check_st();
   }
@@ -200,8 +202,10 @@ struct Interp {
                 if (live) { if (op % 16 == 9) { dvector *x = libvec(col); MatrixAppendCol(P.mx[s], x); DelDVector(&x); } else { uivector *x = libuvec(col); MatrixAppendUICol(P.mx[s], x); DelUIVector(&x); } }
                 if (op % 16 == 10) for (auto &x : col) x = (double)(size_t)std::fabs(x);
                 sh_append_col(sh, col); break; }
-      case 11: { if (sh.r == 0) break; size_t i = (size_t)b % sh.r; if (live) MatrixDeleteRowAt(P.mx[s], i); sh.d.erase(sh.d.begin() + i); sh.r--; deleted_something = true; break; }
-      case 12: { if (sh.c == 0 || sh.r == 0) break; size_t j = (size_t)c % sh.c; if (live) MatrixDeleteColAt(P.mx[s], j); for (auto &r : sh.d) r.erase(r.begin() + j); sh.c--; deleted_something = true; break; }
+      case 11: { if (d % 6 == 0) { fl.oor_access = true; if (live) MatrixDeleteRowAt(P.mx[s], sh.r + (size_t)(c % 2)); break; }   // out of range: nothing changes
+                 if (sh.r == 0) break; size_t i = (size_t)b % sh.r; if (live) MatrixDeleteRowAt(P.mx[s], i); sh.d.erase(sh.d.begin() + i); sh.r--; deleted_something = true; break; }
+      case 12: { if (d % 6 == 0) { fl.oor_access = true; if (live) MatrixDeleteColAt(P.mx[s], sh.c + (size_t)(b % 2)); break; }   // out of range: nothing changes
+                 if (sh.c == 0 || sh.r == 0) break; size_t j = (size_t)c % sh.c; if (live) MatrixDeleteColAt(P.mx[s], j); for (auto &r : sh.d) r.erase(r.begin() + j); sh.c--; deleted_something = true; break; }
       case 13: { if (sh.r == 0) break; size_t i = (size_t)b % sh.r; if (live) { dvector *x = getMatrixRow(P.mx[s], i); if (!x || x->size != sh.c) bad("getMatrixRow size"); for (size_t j = 0; j < sh.c; j++) if (x->data[j] != sh.d[i][j]) bad("getMatrixRow value"); if (sh.c) x->data[0] += 1; DelDVector(&x);
                   if (getMatrixRow(P.mx[s], sh.r + 1) != NULL) bad("getMatrixRow out of range did not return NULL"); } break; }
       case 14: { if (sh.c == 0) break; size_t j = (size_t)c % sh.c; if (live) { dvector *x = getMatrixColumn(P.mx[s], j); if (!x || x->size != sh.r) bad("getMatrixColumn size"); for (size_t i = 0; i < sh.r; i++) if (x->data[i] != sh.d[i][j]) bad("getMatrixColumn value"); DelDVector(&x);
@@ -222,7 +226,7 @@ struct Interp {
                 if (live) TensorAppendMatrix(P.tn[s], P.mx[(size_t)b % Pools::NM]); sh.push_back(src); break; }
       case 4: { if (sh.empty()) break; size_t k = (size_t)b % sh.size(); size_t n = around(sh[k].r, c, d); SV col = mkvec(n, d); if (n != sh[k].r && sh[k].c > 0) fl.mismatched_append = true;
                 if (live) { dvector *x = libvec(col); TensorAppendColumn(P.tn[s], k, x); DelDVector(&x); } sh_append_col(sh[k], col); break; }
-      case 5: { if (sh.empty()) break; size_t k = (size_t)b % sh.size(); size_t n = around(sh[k].c, c, d); if (n == sh[k].r) break;   // the configuration its own error message rejects
+      case 5: { if (sh.empty()) break; size_t k = (size_t)b % sh.size(); size_t n = around(sh[k].c, c, d);
                 SV row = mkvec(n, d); if (n != sh[k].c && sh[k].r > 0) fl.mismatched_append = true;
                 if (live) { dvector *x = libvec(row); TensorAppendRow(P.tn[s], k, x); DelDVector(&x); } sh_append_row(sh[k], row); break; }
       case 6: { if (sh.empty()) break; size_t k = (size_t)b % sh.size(); if (sh[k].r * sh[k].c == 0) break; size_t i = (size_t)c % sh[k].r, j = (size_t)d % sh[k].c; double v = payload(d, 6);
@@ -243,7 +247,8 @@ struct Interp {
   void op_list(int op, int64_t a, int64_t b, int64_t c, int64_t d) {
     int s = (int)(a % Pools::NL); auto &sh = P.sls[s];
     switch (op % 4) {
-      case 0: { if (live) { DelDVectorList(&P.ls[s]); initDVectorList(&P.ls[s]); } sh.clear(); break; }
+      case 0: { if (c % 3 == 0) { size_t n = (size_t)(b % 4); if (live) { DelDVectorList(&P.ls[s]); NewDVectorList(&P.ls[s], n); } sh.assign(n, SV()); break; }
+                if (live) { DelDVectorList(&P.ls[s]); initDVectorList(&P.ls[s]); } sh.clear(); break; }
       case 1: case 2: { int v = (int)(b % Pools::NV); if (live) DVectorListAppend(P.ls[s], P.dv[v]); sh.push_back(P.sdv[v]); break; }
       case 3: { if (sh.empty()) break; size_t k = (size_t)b % sh.size(); if (sh[k].empty()) break; size_t q = (size_t)c % sh[k].size(); double v = payload(d, 8);   // mutate the stored copy: the source vector must not change
                 if (live) P.ls[s]->d[k]->data[q] = v; sh[k][q] = v; break; }
